@@ -1,6 +1,354 @@
-From Coq Require Import List ZArith QArith Bool.
+(* Lemmas about Disc/QaoaModel.v: the diagonal value of each modelled cost Hamiltonian equals the
+   documented objective, for all graphs and all bit assignments. *)
+From Coq Require Import List ZArith QArith Bool Lia Lqa.
 From PLV Require Import Disc.QaoaModel.
 Import ListNotations.
 Open Scope Q_scope.
-Lemma diag_nil : forall b, diag_value [] b == 0.
-Proof. intros; reflexivity. Qed.
+
+(* ------------------------------------------------------------------ sums *)
+Lemma sumQ_cons {A} (f : A -> Q) x r : sumQ f (x :: r) = f x + sumQ f r.
+Proof. reflexivity. Qed.
+Lemma sumQ_nil {A} (f : A -> Q) : sumQ f [] = 0.
+Proof. reflexivity. Qed.
+
+Lemma sumQ_ext {A} (f g : A -> Q) l : (forall x, f x == g x) -> sumQ f l == sumQ g l.
+Proof.
+  intros E; induction l as [|x r IH]; [reflexivity|].
+  rewrite !sumQ_cons, IH, (E x); reflexivity.
+Qed.
+Lemma sumQ_plus {A} (f g : A -> Q) l : sumQ (fun x => f x + g x) l == sumQ f l + sumQ g l.
+Proof.
+  induction l as [|x r IH]; [rewrite !sumQ_nil; ring|].
+  rewrite !sumQ_cons, IH; ring.
+Qed.
+Lemma sumQ_scale {A} (k : Q) (f : A -> Q) l : sumQ (fun x => k * f x) l == k * sumQ f l.
+Proof.
+  induction l as [|x r IH]; [rewrite !sumQ_nil; ring|].
+  rewrite !sumQ_cons, IH; ring.
+Qed.
+Lemma sumQ_opp {A} (f : A -> Q) l : sumQ (fun x => - f x) l == - sumQ f l.
+Proof.
+  induction l as [|x r IH]; [rewrite !sumQ_nil; ring|].
+  rewrite !sumQ_cons, IH; ring.
+Qed.
+Lemma sumQ_minus {A} (f g : A -> Q) l : sumQ (fun x => f x - g x) l == sumQ f l - sumQ g l.
+Proof.
+  induction l as [|x r IH]; [rewrite !sumQ_nil; ring|].
+  rewrite !sumQ_cons, IH; ring.
+Qed.
+Lemma sumQ_app {A} (f : A -> Q) l m : sumQ f (l ++ m) == sumQ f l + sumQ f m.
+Proof.
+  induction l as [|x r IH]; cbn [app]; [rewrite sumQ_nil; ring|].
+  rewrite !sumQ_cons, IH; ring.
+Qed.
+Lemma sumQ_filter {A} (f : A -> Q) (p : A -> bool) l :
+  sumQ f (filter p l) == sumQ (fun x => if p x then f x else 0) l.
+Proof.
+  induction l as [|x r IH]; [reflexivity|].
+  cbn [filter]. rewrite sumQ_cons. destruct (p x); [rewrite sumQ_cons, IH; reflexivity | rewrite IH; ring].
+Qed.
+
+(* ------------------------------------------------------------------ sentences *)
+Lemma diag_cons t r b : diag_value (t :: r) b = fst t * word_value b (snd t) + diag_value r b.
+Proof. reflexivity. Qed.
+Lemma diag_app A B b : diag_value (A ++ B) b == diag_value A b + diag_value B b.
+Proof.
+  induction A as [|t r IH]; cbn [app]; [cbn [diag_value]; ring|].
+  rewrite !diag_cons, IH; ring.
+Qed.
+Lemma diag_hscale k H b : diag_value (hscale k H) b == k * diag_value H b.
+Proof.
+  induction H as [|t r IH]; [cbn; ring|].
+  unfold hscale in *. cbn [map]. rewrite !diag_cons, IH. cbn [fst snd]. ring.
+Qed.
+Lemma diag_flat_map {A} (f : A -> ham) l b :
+  diag_value (flat_map f l) b == sumQ (fun x => diag_value (f x) b) l.
+Proof.
+  induction l as [|x r IH]; [reflexivity|].
+  cbn [flat_map]. rewrite diag_app, IH, sumQ_cons. reflexivity.
+Qed.
+Lemma diag_map {A} (f : A -> Q * word) l b :
+  diag_value (map f l) b == sumQ (fun x => fst (f x) * word_value b (snd (f x))) l.
+Proof.
+  induction l as [|x r IH]; [reflexivity|].
+  cbn [map]. rewrite diag_cons, IH, sumQ_cons. reflexivity.
+Qed.
+
+(* a word of Z operators acts on a computational basis state with eigenvalue (-1)^(number of its
+   wires whose bit is 1) *)
+Lemma word_parity b ws :
+  word_value b ws == if Nat.even (length (filter b ws)) then 1 else -(1).
+Proof.
+  induction ws as [|w r IH]; [reflexivity|].
+  cbn [word_value filter]. unfold zval. destruct (b w).
+  - cbn [length]. rewrite Nat.even_succ, <- Nat.negb_even, IH.
+    destruct (Nat.even (length (filter b r))); cbn [negb]; ring.
+  - rewrite IH. ring.
+Qed.
+
+(* ------------------------------------------------------------------ bit_driver *)
+Lemma z_sum b ws : sumQ (fun w => zval b w) ws == lenQ ws - 2 * ones b ws.
+Proof.
+  unfold lenQ, ones, countQ. induction ws as [|w r IH]; [rewrite !sumQ_nil; ring|].
+  rewrite !sumQ_cons, IH. unfold zval. destruct (b w); ring.
+Qed.
+
+Lemma bit_driver_diag_l ws k H b : bit_driver ws k = Ok H ->
+  diag_value H b == (if (k =? 1)%Z then 1 else -(1)) * (lenQ ws - 2 * ones b ws).
+Proof.
+  unfold bit_driver. destruct (k =? 0)%Z eqn:E0; [|destruct (k =? 1)%Z eqn:E1; [|discriminate]];
+    intros E; injection E as <-; rewrite diag_map, <- z_sum.
+  - assert (k =? 1 = false)%Z as -> by lia.
+    rewrite <- sumQ_scale. apply sumQ_ext; intros w; cbn; ring.
+  - rewrite <- sumQ_scale. apply sumQ_ext; intros w; cbn; ring.
+Qed.
+
+Lemma bit_driver_rejects ws k : k <> 0%Z -> k <> 1%Z -> bit_driver ws k = Raise.
+Proof.
+  intros A B. unfold bit_driver.
+  assert (k =? 0 = false)%Z as -> by lia. assert (k =? 1 = false)%Z as -> by lia. reflexivity.
+Qed.
+
+(* ------------------------------------------------------------------ edge terms *)
+Definition sg (x : bool) : Q := if x then -(1) else 1.
+Definition local (r : Z) (s : Q) (bu bv : bool) : Q :=
+  if (r =? 0)%Z then (1#4) * s * (sg bu * sg bv + sg bu + sg bv)
+  else if (r =? 2)%Z then -(1#2) * s * (sg bu * sg bv)
+  else (1#4) * s * (sg bu * sg bv - sg bu - sg bv).
+
+Lemma edge_terms_diag r s es b : (r = 0 \/ r = 2 \/ r = 3)%Z ->
+  diag_value (edge_terms r s es) b == sumQ (fun e => local r s (b (fst e)) (b (snd e))) es.
+Proof.
+  intros [-> | [-> | ->]]; unfold edge_terms; cbn [Z.eqb Pos.eqb app]; rewrite ?app_nil_r.
+  - rewrite diag_flat_map. apply sumQ_ext. intros [u v]. unfold local, sg. cbn. unfold zval. ring.
+  - rewrite diag_map. apply sumQ_ext. intros [u v]. unfold local, sg. cbn. unfold zval. ring.
+  - rewrite diag_flat_map. apply sumQ_ext. intros [u v]. unfold local, sg. cbn. unfold zval. ring.
+Qed.
+
+(* ------------------------------------------------------------------ edge_driver, any duplicate-free reward *)
+Definition mm (c : Z) (R : list Z) := existsb (Z.eqb c) R.
+
+Lemma valid_cases x : memz x [0; 1; 2; 3]%Z = true -> (x = 0 \/ x = 1 \/ x = 2 \/ x = 3)%Z.
+Proof. unfold memz; cbn [existsb]; lia. Qed.
+
+Lemma notin_mm x R : ~ In x R -> mm x R = false.
+Proof.
+  intros N. unfold mm. destruct (existsb (Z.eqb x) R) eqn:E; [|reflexivity].
+  apply existsb_exists in E as [y [I Y]]. apply Z.eqb_eq in Y. subst y. contradiction.
+Qed.
+
+Lemma nodup_length R : NoDup R -> forallb (fun e => memz e [0; 1; 2; 3]%Z) R = true ->
+  length R = (b2n (mm 0 R) + b2n (mm 1 R) + b2n (mm 2 R) + b2n (mm 3 R))%nat.
+Proof.
+  induction 1 as [|x r N D IH]; [reflexivity|].
+  cbn [forallb]. intros V. apply andb_prop in V as [Vx Vr].
+  specialize (IH Vr). apply notin_mm in N. cbn [length]. rewrite IH.
+  unfold mm in *. cbn [existsb].
+  destruct (valid_cases x Vx) as [-> | [-> | [-> | ->]]]; cbn [Z.eqb Pos.eqb orb]; rewrite N; cbn [b2n]; lia.
+Qed.
+
+Ltac col := change (colour true true) with 3%Z; change (colour true false) with 2%Z;
+            change (colour false true) with 1%Z; change (colour false false) with 0%Z.
+
+Lemma edge_driver_diag_l g R b H : NoDup R -> edge_driver g R = Ok H -> R <> [] -> length R <> 4%nat ->
+  diag_value H b == edge_driver_obj R g b.
+Proof.
+  intros D E NE N4. unfold edge_driver in E.
+  destruct (forallb (fun e => memz e [0; 1; 2; 3]%Z) R) eqn:V; cbn [negb] in E; [|discriminate].
+  pose proof (nodup_length R D V) as L.
+  unfold memz in E. fold (mm 0 R) (mm 1 R) (mm 2 R) (mm 3 R) in E.
+  assert (RW : forall bu bv, edge_energy R bu bv ==
+            let n := inject_Z (Z.of_nat (length R)) in
+            if mm (colour bu bv) R then -((4 - n) / 4) else n / 4).
+  { intros bu bv. unfold edge_energy, nrew, countQ. rewrite !sumQ_cons, sumQ_nil.
+    unfold memz. fold (mm 0 R) (mm 1 R) (mm 2 R) (mm 3 R) (mm (colour bu bv) R).
+    cbv zeta. rewrite L.
+    destruct (mm 0 R), (mm 1 R), (mm 2 R), (mm 3 R), (mm (colour bu bv) R); cbn [b2n]; vm_compute; reflexivity. }
+  unfold edge_driver_obj. rewrite (sumQ_ext _ _ _ (fun e => RW (b (fst e)) (b (snd e)))). clear RW.
+  destruct (mm 0 R) eqn:E0, (mm 1 R) eqn:E1, (mm 2 R) eqn:E2, (mm 3 R) eqn:E3;
+    cbn [b2n Nat.add] in L; cbn [andb orb negb] in E; try discriminate;
+    try (destruct R; [contradiction | discriminate]); try contradiction;
+    rewrite L in E; cbn [Nat.eqb orb b2n Nat.add negb] in E; injection E as <-;
+    (rewrite edge_terms_diag by lia); apply sumQ_ext; intros [u v]; cbn [fst snd]; rewrite L;
+    destruct (b u), (b v); col; rewrite ?E0, ?E1, ?E2, ?E3; vm_compute; reflexivity.
+Qed.
+
+(* the constant branch: an empty reward list or all four colourings: |V| identities *)
+Lemma edge_driver_trivial_l g R b H : NoDup R -> edge_driver g R = Ok H -> (R = [] \/ length R = 4%nat) ->
+  diag_value H b == lenQ (nodes g).
+Proof.
+  intros D E C. unfold edge_driver in E.
+  destruct (forallb _ R); cbn [negb] in E; [|discriminate].
+  destruct (_ || _); [discriminate|].
+  assert ((length R =? 0)%nat || (length R =? 4)%nat = true) as T.
+  { destruct C as [-> | ->]; reflexivity. }
+  rewrite T in E. injection E as <-. rewrite diag_map. unfold lenQ. apply sumQ_ext. intros v. cbn. ring.
+Qed.
+
+(* ------------------------------------------------------------------ the optimisation problems *)
+Lemma maxcut_diag_l g b H : maxcut g = Ok H -> diag_value H b == maxcut_obj g b.
+Proof.
+  unfold maxcut, edge_driver. cbn -[edge_terms]. intros E. injection E as <-.
+  rewrite diag_app, edge_terms_diag by lia. rewrite diag_map.
+  unfold maxcut_obj, countQ. rewrite <- sumQ_plus.
+  rewrite <- sumQ_opp.
+  apply sumQ_ext. intros [u v]. unfold local, sg, is_cut. cbn.
+  destruct (b u), (b v); vm_compute; reflexivity.
+Qed.
+
+Lemma mis_edges b es :
+  3 * sumQ (fun e => local 3 1 (b (fst e)) (b (snd e))) es == 3 * countQ (both1 b) es - (3#4) * lenQ es.
+Proof.
+  unfold countQ, lenQ. rewrite <- !sumQ_scale.
+  rewrite <- sumQ_minus.
+  apply sumQ_ext. intros [u v]. unfold local, sg, both1. cbn.
+  destruct (b u), (b v); vm_compute; reflexivity.
+Qed.
+
+Lemma mvc_edges b es :
+  3 * sumQ (fun e => local 0 1 (b (fst e)) (b (snd e))) es == 3 * countQ (both0 b) es - (3#4) * lenQ es.
+Proof.
+  unfold countQ, lenQ. rewrite <- !sumQ_scale.
+  rewrite <- sumQ_minus.
+  apply sumQ_ext. intros [u v]. unfold local, sg, both0. cbn.
+  destruct (b u), (b v); vm_compute; reflexivity.
+Qed.
+
+Lemma bit1_nodes ns b : diag_value (map (fun w => (1, [w])) ns) b == lenQ ns - 2 * ones b ns.
+Proof. rewrite diag_map, <- z_sum. apply sumQ_ext. intros w. cbn. ring. Qed.
+Lemma bit0_nodes ns b : diag_value (map (fun w => (-(1), [w])) ns) b == - (lenQ ns - 2 * ones b ns).
+Proof.
+  rewrite diag_map, <- z_sum.
+  rewrite <- sumQ_opp.
+  apply sumQ_ext. intros w. cbn. ring.
+Qed.
+
+Lemma mis_diag_l g c b H : max_independent_set g c = Ok H -> diag_value H b == mis_obj g c b.
+Proof.
+  unfold max_independent_set, mis_obj, set_obj, edge_driver, bit_driver. destruct c; cbn -[edge_terms].
+  - intros E. injection E as <-. apply bit1_nodes.
+  - intros E. injection E as <-.
+    rewrite diag_app, diag_hscale, edge_terms_diag by lia. rewrite mis_edges, bit1_nodes. ring.
+Qed.
+
+Lemma mvc_diag_l g c b H : min_vertex_cover g c = Ok H -> diag_value H b == mvc_obj g c b.
+Proof.
+  unfold min_vertex_cover, mvc_obj, set_obj, edge_driver, bit_driver. destruct c; cbn -[edge_terms].
+  - intros E. injection E as <-. apply bit0_nodes.
+  - intros E. injection E as <-.
+    rewrite diag_app, diag_hscale, edge_terms_diag by lia. rewrite mvc_edges, bit0_nodes. ring.
+Qed.
+
+Lemma count_filter {A} (p q : A -> bool) l : countQ q (filter p l) == countQ (fun x => p x && q x) l.
+Proof.
+  unfold countQ. rewrite sumQ_filter. apply sumQ_ext. intros x. destruct (p x), (q x); reflexivity.
+Qed.
+Lemma len_filter {A} (p : A -> bool) l : lenQ (filter p l) == countQ p l.
+Proof. unfold lenQ, countQ. rewrite sumQ_filter. reflexivity. Qed.
+
+Lemma clique_diag_l g c b H : max_clique g c = Ok H -> diag_value H b == clique_obj g c b.
+Proof.
+  unfold max_clique, clique_obj, set_obj, edge_driver, bit_driver. destruct c; cbn -[edge_terms complement].
+  - intros E. injection E as <-. apply bit1_nodes.
+  - intros E. injection E as <-.
+    rewrite diag_app, diag_hscale, edge_terms_diag by lia. rewrite mis_edges, bit1_nodes.
+    unfold complement; cbn [edges nodes].
+    change (fun p : Z * Z => negb (adjacent (edges g) (fst p) (snd p))) with (nonadj g).
+    rewrite count_filter, len_filter. unfold lenQ, countQ, ones. ring.
+Qed.
+
+(* ------------------------------------------------------------------ cycle.py: the constraint Hamiltonians *)
+Lemma word_app b u v : word_value b (u ++ v) == word_value b u * word_value b v.
+Proof.
+  induction u as [|w r IH]; cbn [app word_value]; [ring|]. rewrite IH. ring.
+Qed.
+Lemma word_sq b w : word_value b w * word_value b w == 1.
+Proof.
+  induction w as [|x r IH]; cbn [word_value]; [ring|].
+  assert (zval b x * zval b x == 1) as Z by (unfold zval; destruct (b x); ring).
+  setoid_replace (zval b x * word_value b r * (zval b x * word_value b r))
+    with ((zval b x * zval b x) * (word_value b r * word_value b r)) by ring.
+  rewrite Z, IH. ring.
+Qed.
+Lemma diag_pairs_head c w r b :
+  diag_value (map (fun u : Q * word => (2 * c * fst u, w ++ snd u)) r) b == 2 * c * word_value b w * diag_value r b.
+Proof.
+  induction r as [|t r IH]; [cbn; ring|].
+  cbn [map]. rewrite !diag_cons, IH. cbn [fst snd]. rewrite word_app. ring.
+Qed.
+Lemma diag_square l b : diag_value (square_terms l) b == diag_value l b * diag_value l b.
+Proof.
+  unfold square_terms. rewrite diag_cons. cbn [fst snd word_value].
+  induction l as [|t r IH]; [cbn; ring|].
+  cbn [pairs_sq]. rewrite sumQ_cons, diag_app, diag_pairs_head, diag_cons.
+  pose proof (word_sq b (snd t)) as V.
+  setoid_replace ((fst t * word_value b (snd t) + diag_value r b) * (fst t * word_value b (snd t) + diag_value r b))
+    with (fst t * fst t * (word_value b (snd t) * word_value b (snd t))
+          + 2 * fst t * word_value b (snd t) * diag_value r b + diag_value r b * diag_value r b) by ring.
+  rewrite V, <- IH. ring.
+Qed.
+Lemma wires_sum b k (l : list (Z * (Z * Z * Q))) :
+  diag_value (map (fun we => (k, [fst we])) l) b == k * (lenQ l - 2 * selq b l).
+Proof.
+  unfold lenQ, selq, countQ. induction l as [|x r IH]; [cbn; ring|].
+  cbn [map]. rewrite diag_cons, IH, !sumQ_cons. cbn [fst snd word_value]. unfold zval.
+  destruct (b (fst x)); ring.
+Qed.
+
+Lemma inner_out_flow_diag d n b :
+  diag_value (inner_out_flow d n) b == let s := selq b (out_edges d n) in 4 * s * (s - 1).
+Proof.
+  unfold inner_out_flow. cbv zeta. set (oe := out_edges d n).
+  rewrite !diag_app, diag_square, !wires_sum. cbn [diag_value fst snd word_value]. ring.
+Qed.
+Lemma inner_net_flow_diag d n b :
+  diag_value (inner_net_flow d n) b ==
+  let s := selq b (out_edges d n) - selq b (in_edges d n) in 4 * s * s.
+Proof.
+  unfold inner_net_flow. cbv zeta. set (oe := out_edges d n). set (ie := in_edges d n).
+  rewrite diag_square, diag_cons, diag_app, !wires_sum. cbn [fst snd word_value]. ring.
+Qed.
+
+Lemma out_flow_diag_l d b H : out_flow_constraint d = Ok H -> diag_value H b == out_flow_obj d b.
+Proof.
+  unfold out_flow_constraint. destruct (directed d); [|discriminate]. intros E. injection E as <-.
+  rewrite diag_flat_map. apply sumQ_ext. intros n. apply inner_out_flow_diag.
+Qed.
+Lemma net_flow_diag_l d b H : net_flow_constraint d = Ok H -> diag_value H b == net_flow_obj d b.
+Proof.
+  unfold net_flow_constraint. destruct (directed d); [|discriminate]. intros E. injection E as <-.
+  rewrite diag_flat_map. apply sumQ_ext. intros n. apply inner_net_flow_diag.
+Qed.
+Lemma loss_diag_l d b H : loss_hamiltonian d = Ok H -> diag_value H b == loss_obj d b.
+Proof.
+  unfold loss_hamiltonian. destruct (existsb _ _); [discriminate|]. intros E. injection E as <-.
+  rewrite diag_map. apply sumQ_ext. intros we. cbn. ring.
+Qed.
+Lemma mwc_diag_l d c b H : mwc_cost d c = Ok H -> diag_value H b == mwc_obj d c b.
+Proof.
+  unfold mwc_cost, mwc_obj. destruct c; [apply loss_diag_l|].
+  destruct (loss_hamiltonian d) as [L| |] eqn:EL, (net_flow_constraint d) as [N| |] eqn:EN,
+    (out_flow_constraint d) as [O| |] eqn:EO; cbn [happ hmul]; try discriminate.
+  intros E. injection E as <-.
+  rewrite diag_app, diag_hscale, diag_app.
+  rewrite (loss_diag_l _ _ _ EL), (net_flow_diag_l _ _ _ EN), (out_flow_diag_l _ _ _ EO). reflexivity.
+Qed.
+
+(* all builders succeed on every graph (the only errors are a bad `b` / a bad reward list) *)
+Lemma builders_total g c :
+  (exists H, maxcut g = Ok H) /\ (exists H, max_independent_set g c = Ok H) /\
+  (exists H, min_vertex_cover g c = Ok H) /\ (exists H, max_clique g c = Ok H).
+Proof.
+  repeat split; destruct c; unfold maxcut, max_independent_set, min_vertex_cover, max_clique, edge_driver,
+    bit_driver; cbn -[edge_terms complement]; eexists; reflexivity.
+Qed.
+
+(* the operator formula of the unconstrained docstrings taken literally (edge coefficient 3 instead
+   of 3/4) does not describe the returned Hamiltonian *)
+Lemma doc_literal_refuted :
+  exists g b H, max_independent_set g false = Ok H /\
+                ~ diag_value H b == diag_value (mis_doc_literal g) b.
+Proof.
+  exists (mkG [0; 1]%Z [(0, 1)]%Z), (fun _ => true). eexists. split; [reflexivity|].
+  intros E. vm_compute in E. discriminate.
+Qed.
